@@ -23,6 +23,7 @@ class Tr:
         self.consts = {}
         self.nat_vars = []
         self.fresh = 0
+        self.axioms = []
 
     def sort(self, T):
         if T == BoolType:
@@ -89,6 +90,21 @@ class Tr:
             zv = self.atom(v)
             body = self.tr(ab.subst_bound(v))
             return z3.ForAll([zv], body) if t.is_forall() else z3.Exists([zv], body)
+        if t.is_comb('Some', 1) and t.arg.is_abs() and not t.arg.var_T.is_fun() and t.arg.var_T != NatType:
+            # Hilbert choice: a constant e with the axiom (?x. phi x) --> phi e
+            from kernel.term import Var
+            ab = t.arg
+            key = ('some', repr(t))
+            if key not in self.consts:
+                self.fresh += 1
+                e = Var('some__%d' % self.fresh, ab.var_T)
+                ze = self.atom(e)
+                self.consts[key] = ze
+                self.fresh += 1
+                v = Var('%s__q%d' % (ab.var_name, self.fresh), ab.var_T)
+                zv = self.atom(v)
+                self.axioms.append(z3.Implies(z3.Exists([zv], self.tr(ab.subst_bound(v))), self.tr(ab.subst_bound(e))))
+            return self.consts[key]
         if t.is_abs() or t.is_bound() or t.is_svar():
             raise Outside('binder')
         if t.is_not():
@@ -157,6 +173,8 @@ def entails(premises, conclusion, timeout=4000):
     s.set('timeout', timeout)
     for p in ps:
         s.add(p)
+    for ax in trn.axioms:
+        s.add(ax)
     s.add(z3.Not(c))
     r = s.check()
     if r == z3.unsat:
